@@ -40,6 +40,11 @@ pub struct ProbeCase {
     /// test (e.g. forced boolean, then the recorder fake, then the forced boolean under test)
     #[serde(default)]
     pub prior: Vec<ProbeMode>,
+    /// also call the function at the earliest possible moment: when the library flushes the
+    /// entry it has just patched (what a caller on another thread can do); only without earlier
+    /// installations
+    #[serde(default)]
+    pub early: bool,
 }
 
 #[derive(Serialize, Deserialize, Clone, Debug, Default)]
@@ -50,6 +55,11 @@ pub struct ProbeObs {
     pub long_form: bool,
     #[serde(default)]
     pub tramp_addr: Option<u64>,
+    /// rax after the call made from the flush hook (None = hook did not fire)
+    #[serde(default)]
+    pub early_rax: Option<u64>,
+    #[serde(default)]
+    pub early_callee_ok: bool,
     #[serde(default)]
     pub set_r10: u64,
     #[serde(default)]
@@ -104,7 +114,12 @@ pub fn execute(c: &ProbeCase) -> ProbeObs {
                 return o;
             };
             let addr = base + (*off as usize % PAGE);
-            a.put_ret_id(addr, ORIG_MARK);
+            // three in four synthetic originals start with a generated prologue (derived from
+            // the case, so that the first bytes the entry patch overwrites vary)
+            let pseed = page.rotate_left(9) ^ (*off as u64) << 3 ^ c.sig as u64;
+            if pseed % 4 == 0 || addr + 32 > base + 2 * PAGE || a.put_prologue_fn(addr, ORIG_MARK, pseed) == 0 {
+                a.put_ret_id(addr, ORIG_MARK);
+            }
             a.seal();
             _arena = Some(a);
             addr
@@ -136,6 +151,16 @@ pub fn execute(c: &ProbeCase) -> ProbeObs {
         PROBE_ORIG_HITS = 0;
     }
     crate::worker::phase("install");
+    let early_res: std::rc::Rc<std::cell::RefCell<Option<(u64, bool)>>> = Default::default();
+    if c.early && c.prior.is_empty() {
+        let mut ctx2 = ctx_from(&c.regs, target as u64);
+        let er = early_res.clone();
+        let want_callee = c.regs.callee;
+        ip::set_flush_hook(target, Box::new(move || {
+            unsafe { probe_call(&mut *ctx2 as *mut Ctx) };
+            *er.borrow_mut() = Some((ctx2.out_rax, ctx2.out_callee == want_callee && ctx2.out_rsp_delta == 0));
+        }));
+    }
     let r = std::panic::catch_unwind(std::panic::AssertUnwindSafe(|| {
         ip::sut(|| {
             let mut inj = InjectorPP::new();
@@ -158,6 +183,11 @@ pub fn execute(c: &ProbeCase) -> ProbeObs {
             inj
         })
     }));
+    ip::clear_flush_hook();
+    if let Some((rax, ok)) = *early_res.borrow() {
+        o.early_rax = Some(rax);
+        o.early_callee_ok = ok;
+    }
     let inj = match r {
         Ok(i) => i,
         Err(_) => {
@@ -221,7 +251,10 @@ pub fn strategy(modes: Vec<ProbeMode>) -> impl Strategy<Value = ProbeCase> {
         1 => any::<bool>().prop_map(|v| vec![ProbeMode::Bool(v), ProbeMode::Fake]),
         1 => any::<bool>().prop_map(|v| vec![ProbeMode::Fake, ProbeMode::Bool(v)]),
     ];
-    (place, proptest::sample::select(modes), regfile(), any::<u8>(), prop::option::weighted(0.4, (any::<u32>(), 0u16..0x1000, prop::bool::weighted(0.6))), prior).prop_map(|(place, mode, regs, sig, fake_thunk, prior)| ProbeCase { place, mode, regs, sig, fake_thunk, prior })
+    (place, proptest::sample::select(modes), regfile(), any::<u8>(), prop::option::weighted(0.4, (any::<u32>(), 0u16..0x1000, prop::bool::weighted(0.6))), prior, prop::bool::weighted(0.3)).prop_map(|(place, mode, regs, sig, fake_thunk, prior, early)| {
+        let early = early && prior.is_empty();
+        ProbeCase { place, mode, regs, sig, fake_thunk, prior, early }
+    })
 }
 
 pub fn judge(rec: &mut Recorder, c: &ProbeCase, ex: Exec, _hello: &Value) -> Result<(), String> {
@@ -274,8 +307,12 @@ pub fn judge(rec: &mut Recorder, c: &ProbeCase, ex: Exec, _hello: &Value) -> Res
             if let Some((_, _, high)) = c.fake_thunk {
                 rec.class(if high { "fake-via-thunk/bit31-set" } else { "fake-via-thunk/low-4GiB" });
             }
-            if o.fake_hits != 1 {
-                return rec.fail(&sig("fake-not-reached-once"), format!("the fake was entered {} times (original ran {} times, rax {:#x}); case {c:?}", o.fake_hits, o.orig_hits, o.out_rax));
+            let want_hits = 1 + o.early_rax.is_some() as u64;
+            if o.early_rax.is_some() {
+                rec.class("fake/also-called-while-being-installed");
+            }
+            if o.fake_hits != want_hits {
+                return rec.fail(&sig("fake-not-reached-once"), format!("the fake was entered {} times for {want_hits} call(s) (original ran {} times, rax {:#x}); case {c:?}", o.fake_hits, o.orig_hits, o.out_rax));
             }
             let argn = ["rdi", "rsi", "rdx", "rcx", "r8", "r9"];
             for i in 0..6 {
@@ -312,6 +349,12 @@ pub fn judge(rec: &mut Recorder, c: &ProbeCase, ex: Exec, _hello: &Value) -> Res
             }
             if o.out_rax & 0xFF != v as u64 {
                 return rec.fail(&sig("boolean-wrong-value"), format!("al={:#x} after the call, requested {v}; case {c:?}", o.out_rax & 0xFF));
+            }
+            if let Some(rax) = o.early_rax {
+                rec.class("bool/also-called-while-being-installed");
+                if rax & 0xFF != v as u64 || !o.early_callee_ok {
+                    return rec.fail(&sig("boolean-wrong-for-a-call-during-installation"), format!("a call made when the library had just patched and flushed the entry (before will_return_boolean returned) came back with al={:#x} (requested {v}), callee-saved registers and rsp intact: {}; case {c:?}", rax & 0xFF, o.early_callee_ok));
+                }
             }
             if o.fake_hits != 0 {
                 return rec.fail(&sig("superseded-fake-ran"), format!("a fake installed before the forced boolean ran {} time(s) although the forced boolean is the most recent installation (earlier installations {:?}); case {c:?}", o.fake_hits, c.prior));
